@@ -131,6 +131,20 @@ func checkFence(line string) (bool, error) {
 			}
 		}
 	}
+	if wn > 0 && !strings.ContainsAny(strings.TrimRight(line, "\r\n"), "\r\n") {
+		// the same line as a closing fence: it closes a block opened by three of
+		// its characters exactly when it has no info string
+		l := line
+		if !strings.HasSuffix(l, "\n") && !strings.HasSuffix(l, "\r") {
+			l += "\n"
+		}
+		doc := strings.Repeat(string(wc), 3) + "\nx\n" + l + "after\n"
+		roots, _ := cm.Parse([]byte(doc))
+		closed := len(roots) == 2 && roots[0].Kind() == cm.FencedCodeBlockKind && roots[1].Kind() == cm.ParagraphKind
+		if closed != (wi == "") {
+			return true, fmt.Errorf("document %q: the fence line closes the block = %v, the spec's definition says %v (a closing fence has no info string)", doc, closed, wi == "")
+		}
+	}
 	return wn > 0, nil
 }
 
